@@ -41,7 +41,11 @@ func (b *connMailBox) cleanUp() {
 	b.office.remove(b.key)
 }
 
-func (b *connMailBox) receive(ctx context.Context) (net.Conn, error) {
+// receive waits for the side connection. gone is closed when the endpoint
+// that was asked to open it can no longer do so.
+func (b *connMailBox) receive(
+	ctx context.Context, gone <-chan struct{},
+) (net.Conn, error) {
 	select {
 	case <-ctx.Done():
 		return nil, ctx.Err()
@@ -49,6 +53,13 @@ func (b *connMailBox) receive(ctx context.Context) (net.Conn, error) {
 		return nil, errcode.TimeOutf("closed")
 	case conn := <-b.ch:
 		return conn, nil
+	case <-gone:
+		select {
+		case conn := <-b.ch: // delivered just before the endpoint went away
+			return conn, nil
+		default:
+		}
+		return nil, errAlreadyShutdown
 	}
 }
 
